@@ -616,7 +616,7 @@ def run(ctx):
     evaluate_sessions(ctx, scases, res)
     res['scopes']['session_cases'] = ns
     # task groups: model language, then the wider one
-    ng = (40000 if ctx.tier == "thorough" else 3000) if ctx.deep else 400
+    ng = (30000 if ctx.tier == "thorough" else 3000) if ctx.deep else 400
     gprogs = []
     while len(gprogs) < ng:
         p = T.gen_group(rng, 4)
@@ -624,7 +624,7 @@ def run(ctx):
             gprogs.append(p)
     evaluate(ctx, gprogs, res, mode='events', tag='groups')
     res['scopes']['group_programs'] = ng
-    nx = (40000 if ctx.tier == "thorough" else 3000) if ctx.deep else 400
+    nx = (30000 if ctx.tier == "thorough" else 3000) if ctx.deep else 400
     evaluate(ctx, [gen_groupx(rng) for _ in range(nx)], res, mode='events', use_model=False,
              tag='groupx')
     res['scopes']['wider_group_programs'] = nx
